@@ -39,6 +39,7 @@ def run(rep, tier):
                              "same_value": r["same_value"], "same_text": r["same_text"]})
     tpath = os.path.join(vlib.workdir("C11"), "trace.ndjson")
     vlib.write_ndjson(tpath, recs)
+    vlib.maybe_corrupt(tpath)
     nrec, bad = vlib.validate_trace(rep, "C11", "Trace_C11", tpath, stack="1g")
     for i in bad:
         r = recs[i - 1]
